@@ -1065,7 +1065,8 @@ class Located(object):
     __slots__ = ('table', 'row', 'offset', 'line', 'tail', 'full')
 
 
-def locate_rows(data, lst, index, encoding='latin-1', span=None, allow_dups=False):
+def locate_rows(data, lst, index, encoding='latin-1', span=None, allow_dups=False,
+                printed=None):
     """For result set `index` of the (unmodified) image: the data lines of every table the
     reader exposes, found by an independent scan.  Returns list of Located."""
     starts = sorted(lst._pos)
@@ -1112,6 +1113,8 @@ def locate_rows(data, lst, index, encoding='latin-1', span=None, allow_dups=Fals
         if not tail:
             continue
         key = keys_of_head(head, t.num_keys)
+        if key is not None and printed is not None:
+            printed.setdefault(cur, set()).add(key)       # every key printed under this header
         if key is None or key not in keysets[cur]:
             continue
         rows = keysets[cur][key]
@@ -1274,7 +1277,24 @@ class TableMachine(ListingBase):
         i = ch[0] % n
         lst = self.reader(self.data)
         self.position(lst, i, n, ch[1])
-        located = locate_rows(self.data, lst, i)
+        printed = {}
+        located = locate_rows(self.data, lst, i, printed=printed)
+        # P0: rows are keyed by the printed names with the (a3,i2) blank repaired - in every
+        # table alike (an element 'AJ205' and a connection ('AJ2 5', ...) would not find each
+        # other); the repair is stated by the harness on its own (my_fixname)
+        for tname in lst._tablenames:
+            t = lst._table[tname]
+            for rn in t.row_name:
+                for comp in (rn if isinstance(rn, tuple) else (rn,)):
+                    if isinstance(comp, str) and my_fixname(comp) != comp:
+                        raise Violation('P0', '%s table %s: row %r is keyed by the name %r as '
+                                        'printed, not in its repaired form %r'
+                                        % (self.rel, tname, rn, comp, my_fixname(comp)))
+        for tname, keys in sorted(printed.items()):
+            rn = list(lst._table[tname].row_name)
+            self.ctx.probes['row_names_not_seen_by_the_independent_scan'] += \
+                sum(1 for k in rn if k not in keys)
+        self.ctx.probes['tables_keys_compared'] += len(printed)
         nfull = 0
         for L in located:
             t = lst._table[L.table]
@@ -1538,5 +1558,20 @@ class TableMachine(ListingBase):
                         raise Violation('P6', '%s table %s: column %r fetched by name after moving '
                                         'from result set %d to %d is not the column the table '
                                         'holds' % (self.rel, name, col, i, i2))
+            if ch[1] % 3 == 0 and lst._tablenames:
+                # the caller also pulls a time series out of the same reader, then steps on: the
+                # tables it sees next are those of the neighbouring result set
+                t0 = lst._table[lst._tablenames[0]]
+                if t0.num_rows:
+                    sel = (SPEC[lst._tablenames[0]], 0, t0.column_name[-1])
+                    self.guarded(lambda: lst.history(sel), 'history(%r)' % (sel,))
+                    j = i2 + 1 if i2 < n - 1 else i2 - 1
+                    moved = self.guarded(lst.next if j > i2 else lst.prev, 'next()/prev()')
+                    got = self.snap(lst)
+                    want = self.fresh_at(self.rel, self.data, (), j)
+                    self.compare_snap(want, got, '%s: history() at result set %d, then %s'
+                                      % (self.rel, i2, 'next()' if j > i2 else 'prev()'),
+                                      check='P6.nav')
+                    self.ctx.probes['history_then_step_in_table_check'] += 1
         lst.close()
         return i > 0
